@@ -291,7 +291,7 @@ func describe(p *path, b *builder, blk *wire.MsgBlock, bip34HashOk bool, s scen)
 
 	// block level
 	txs := blk.Transactions
-	merkleOk := len(txs) > 0 && blk.Header.MerkleRoot == txidRoot(txs)
+	merkleOk := blk.Header.MerkleRoot == txidRoot(txs)
 	seen := map[[32]byte]bool{}
 	dup := false
 	for _, t := range txs {
